@@ -234,6 +234,7 @@ def handle (line : String) : String :=
         else if op = "sg" then handleSg level tb else if op = "mo" then handleMo tb else if op = "up" then handleUp tb
         else if op = "cf" then handleCf ((conc.splitOn " ").getD 2 "-") tb
         else if op = "ep" then handleEp level
+        else if op = "ja" then "r=ok"     -- patches applied jointly through FixVulns: judged on the result (see checks/c11.py)
         else if op = "rl" then "r=ok"     -- relax end to end: the only claim is termination (the call returns); see C11_terminates_*
         else "bad-op"
       | none => "bad-op"
